@@ -688,7 +688,19 @@ def decision_paths(fn, limit=400, with_calls=False, with_env=False, start=0, sto
         elif 1 <= l <= fn.arg_count:
             e = ("arg", l, fn.names.get(l))
         elif free_locals:
-            e = ("free", l, fn.names.get(l))   # defined before the region (loop-carried or captured state)
+            # defined before the region: a single-assignment local (e.g. a closure value, a hoisted borrow) is
+            # replaced by its definition; anything re-assigned stays symbolic (loop-carried state)
+            ds_ = fn.defs.get(l, [])
+            e = None
+            if len(ds_) == 1 and ds_[0][2] == "assign":
+                try:
+                    e = fn.expr_of_local(l)
+                except Exception:
+                    e = None
+                if e is not None and e[0] == "local":
+                    e = None
+            if e is None:
+                e = ("free", l, fn.names.get(l))
         else:
             raise Inconclusive("%s: read of a local without a definition on this path (_%d)" % (fn.path, l))
         for el in projs:
@@ -792,6 +804,16 @@ def decision_paths(fn, limit=400, with_calls=False, with_env=False, start=0, sto
             lhs = st["lhs"]
             if not lhs["p"]:
                 env[lhs["l"]] = v
+                rv_ = st["rv"]
+                if "ref" in rv_ and rv_.get("mut") and not rv_["ref"]["p"]:
+                    mr = dict(env.get("#mutref", {}))
+                    mr[lhs["l"]] = rv_["ref"]["l"]
+                    env["#mutref"] = mr
+                elif "use" in rv_ and (rv_["use"].get("move") or rv_["use"].get("copy")) and not (rv_["use"].get("move") or rv_["use"].get("copy"))["p"] \
+                        and (rv_["use"].get("move") or rv_["use"].get("copy"))["l"] in env.get("#mutref", {}):
+                    mr = dict(env["#mutref"])
+                    mr[lhs["l"]] = mr[(rv_["use"].get("move") or rv_["use"].get("copy"))["l"]]
+                    env["#mutref"] = mr
             else:
                 # field update of an aggregate local: record as an updated aggregate when possible
                 base = env.get(lhs["l"])
@@ -869,6 +891,13 @@ def decision_paths(fn, limit=400, with_calls=False, with_env=False, start=0, sto
                         val = ("agg", "std::ops::ControlFlow::Break", {"0": args[0]})
                 env[d["l"]] = val
             env["#calls"] = tuple(env.get("#calls", ())) + ((name, (bb, d["l"]), args),)
+            # a local handed to the callee as `&mut local` may have been changed by it
+            for a_ in t["args"]:
+                p_ = a_.get("move") or a_.get("copy")
+                if p_ is not None and not p_["p"] and p_["l"] in env.get("#mutref", {}):
+                    tgt = env["#mutref"][p_["l"]]
+                    old_v = env.get(tgt, ("arg", tgt, fn.names.get(tgt)) if 1 <= tgt <= fn.arg_count else ("free", tgt, fn.names.get(tgt)))
+                    env[tgt] = ("call_mut", name, old_v, (bb, d["l"]))
             if t["target"] is not None:
                 go(t["target"], env, conds, seen)
         elif k in ("assert", "drop"):
